@@ -58,6 +58,15 @@ Theorem C17_tunnel_registry_admits_below_cap :
 Proof. exact treg_admits_below. Qed.
 Print Assumptions C17_tunnel_registry_admits_below_cap.
 
+(* "a registration whose TunnelID is already registered is a replacement and skips the capacity check" (NOT the code): the
+   cap is on connMap, keyed by ConnID — full registry (limit 2), NEW ConnID 3 with a known TunnelID => 3 entries; the code
+   refuses that registration and changes nothing *)
+Theorem C17_tunnel_registry_tid_replacement_refuted :
+  length (snd (treg_tid_skip_apply 2 true 3 3 [(1, 1); (2, 2)]%N)) = 3 /\
+  treg_apply 2 (RReg 3 3) [(1, 1); (2, 2)]%N = (RRefused, [(1, 1); (2, 2)]%N).
+Proof. exact treg_tid_skip_refuted. Qed.
+Print Assumptions C17_tunnel_registry_tid_replacement_refuted.
+
 (* ---- control-connection cap (one step per operation; a new id at the cap evicts the oldest, a present id is replaced) ---- *)
 Theorem C17_control_registry_never_exceeds :
   forall (max : nat) (m : list (N * N)) (ts : list rloc) (sched : list nat),
